@@ -6,7 +6,8 @@
              slot / subslot / repo : "" = not constrained
              deps : set of static USE dependencies [flag, neg, dflt \in {"", "+", "-"}]
                     ( [flag]  [-flag]  [flag(+)]  [-flag(-)] ... )
-   package [cat, pkg, ver, slot, subslot, repo, iuse, use]   (use \subseteq iuse)
+   package [cat, pkg, ver, slot, subslot, repo, iuse, use]   (use need not be a subset of iuse: for a flag
+                                                              outside IUSE only the dependency's default counts)
 
    The answer is three valued: "T" matches, "F" does not, "U" PMS / the property leaves it
    open (only through Glob = "U", or a USE dependency without default on a flag that is not in
